@@ -267,7 +267,7 @@ offset only to report `file_range`s. For the concrete models `Model/Lexer.lean`,
 for lexing / parsing `p ++ f` from `p.length + k` (`Lemmas/Shift*.lean`). -/
 
 section Concrete
-open PdfLex
+open PdfLex PdfShift
 
 variable {R : Type}
 
